@@ -148,7 +148,9 @@ Print Assumptions C14_close_without_date_accepted.
    the imported beanquery): the real transform functions on 24 + 84 sentinel statements (every
    combination of summary none/units/cost, FROM shapes, WHERE, account patterns incl. quotes)
    return what the model returns, which is the expansion of the property text; the template
-   texts have the model's tokens and fields; the grammar's keywords are the model's. *)
+   texts have the model's tokens and fields; the grammar's keywords are the model's; the
+   FROM / WHERE nodes of the result ARE the caller's nodes (identity: positional %s parameters
+   are numbered by node identity, a copied clause would lose them). *)
 Theorem C14_templates_tie :
   Gen.Templates.balances_cases = map transform_balances Gen.Templates.balances_inputs
   /\ Gen.Templates.journal_cases = map transform_journal Gen.Templates.journal_inputs
@@ -160,11 +162,12 @@ Theorem C14_templates_tie :
          Gen.Templates.journal_inputs
   /\ probe Gen.Templates.balances_template = probe balances_template
   /\ probe Gen.Templates.journal_template = probe journal_template
-  /\ subset Gen.Templates.keywords keywords && subset keywords Gen.Templates.keywords = true.
+  /\ subset Gen.Templates.keywords keywords && subset keywords Gen.Templates.keywords = true
+  /\ Gen.Templates.clauses_shared = true.
 Proof.
   exact (conj balances_cases_tie (conj journal_cases_tie (conj balances_cases_expected
         (conj journal_cases_expected (conj (proj1 balances_template_tie)
-        (conj (proj1 journal_template_tie) keywords_tie)))))).
+        (conj (proj1 journal_template_tie) (conj keywords_tie clauses_shared_tie))))))).
 Qed.
 Print Assumptions C14_templates_tie.
 
